@@ -65,29 +65,57 @@ _arc = {}
 
 
 def arc_model(F):
-    """What ArcPayload::new / default / len do, read off their abstract paths (default configuration: one `Large` variant):
-    len() returns the `length` field, new(data, start, length) stores its third argument there, default() stores a constant."""
+    """What ArcPayload::new / default / len do, read off their abstract paths, per enum variant:
+    len() returns one field of the variant (possibly widened by a cast), new(data, start, length) stores its `length`
+    argument there on every path (narrowing casts are guarded by the small-buffer threshold test of that path),
+    default() stores a constant."""
     if F.hash in _arc:
         return _arc[F.hash]
     m = {"ok": False}
+
+    def strip_cast(v):
+        while v[0] == "sym" and v[1][0] in ("cast", "into"):
+            v = v[1][1]
+        return v
     try:
+        variants = F.adt(AP)["variants"]
+        lenfield = {}
+        for var in variants:
+            ex = explore.Explorer(F)
+
+            def setup(exx, st, fr, var=var):
+                st.heap[(("self",), ())] = ("agg", AP, var["name"], tuple(("sym", ("FIELD", f["i"])) for f in var["fields"]))
+            rets = [strip_cast(p.ret) for p in ex.run(AP + "::len", setup=setup) if p.kind == "return"]
+            if len(rets) == 1 and rets[0][0] == "sym" and rets[0][1][0] == "FIELD":
+                lenfield[var["name"]] = rets[0][1][1]
         ex = explore.Explorer(F)
-        lens = [p.ret for p in ex.run(AP + "::len") if p.kind == "return"]
-        fld = None
-        if len(lens) == 1 and lens[0][0] == "sym" and lens[0][1][0] == "field" and lens[0][1][1] == ("init", ("self",), ()):
-            fld = lens[0][1][2]
+        fn = F.fns[AP + "::new"]
+        names = fn.get("names", {})
         news = [p.ret for p in ex.run(AP + "::new") if p.kind == "return"]
         defs = [p.ret for p in ex.run("<" + AP + " as std::default::Default>::default") if p.kind == "return"]
-        flds = {f["name"]: f["i"] for v in F.adt(AP)["variants"] for f in v["fields"]}
-        if fld in flds and len(F.adt(AP)["variants"]) == 1 and len(news) == 1 and news[0][0] == "agg" and len(defs) == 1 and defs[0][0] == "agg":
-            i = flds[fld]
-            nv = news[0][3][i]
-            dv = defs[0][3][i]
-            fn = F.fns[AP + "::new"]
-            names = fn.get("names", {})
-            argi = [k for k in range(1, fn["argc"] + 1) if nv == ("sym", ("arg", names.get(str(k))))]
-            if argi and dv[0] == "c":
-                m = {"ok": True, "new_arg": argi[0] - 1, "default_len": dv[1], "field": i}
+        argi = None
+        okn = bool(news) and len(lenfield) == len(variants)
+        for r in news:
+            if not (r[0] == "agg" and r[2] in lenfield):
+                okn = False
+                break
+            v = strip_cast(conn.expand_all(ex.interned_rev, r[3][lenfield[r[2]]]))
+            k = [k for k in range(1, fn["argc"] + 1) if v == ("sym", ("arg", names.get(str(k))))]
+            if not k or (argi is not None and argi != k[0]):
+                okn = False
+                break
+            argi = k[0]
+        dl = None
+        for r in defs:
+            if r[0] == "agg" and r[2] in lenfield:
+                v = strip_cast(r[3][lenfield[r[2]]])
+                if v[0] == "c" and (dl is None or dl == v[1]):
+                    dl = v[1]
+                    continue
+            dl = None
+            break
+        if okn and dl is not None and defs:
+            m = {"ok": True, "new_arg": argi - 1, "default_len": dl, "field": lenfield}
     except Exception:
         pass
     _arc[F.hash] = m
@@ -282,8 +310,8 @@ class Ctx:
             return linear.const(len(v[1]))
         if v[0] == "vec" and not v[1]:
             return linear.const(0)
-        if v[0] == "agg" and v[1] == AP and arc_model(self.F)["ok"]:
-            return self.canon(self.lin.of_value(v[3][arc_model(self.F)["field"]]))
+        if v[0] == "agg" and v[1] == AP and arc_model(self.F)["ok"] and v[2] in arc_model(self.F)["field"]:
+            return self.canon(self.lin.of_value(v[3][arc_model(self.F)["field"][v[2]]]))
         if v[0] == "sym" and v[1][0] == "call":
             nm = v[1][1]
             args = [x for x in v[1][2] if not (isinstance(x, tuple) and x and x[0] == "targs")]
